@@ -45,20 +45,22 @@ type univFact struct {
 }
 
 type GuardCtx struct {
-	P       *Prog
-	Fn      *ssa.Function
-	PC      *PolyCtx
-	loops   []*RangeLoop
-	memo    map[*ssa.BasicBlock][]Fact
-	univ    []univFact
-	uDone   bool
-	Inv     *LenInvariants
-	extra   []Fact // edge conditions while proving a phi operand
-	opDepth int
-	pinv    []phiInv
-	pDone   bool
-	imp     []importedUniv
-	impDone bool
+	P         *Prog
+	Fn        *ssa.Function
+	PC        *PolyCtx
+	loops     []*RangeLoop
+	memo      map[*ssa.BasicBlock][]Fact
+	univ      []univFact
+	uDone     bool
+	Inv       *LenInvariants
+	extra     []Fact // edge conditions while proving a phi operand
+	opDepth   int
+	pinv      []phiInv
+	pDone     bool
+	imp       []importedUniv
+	impDone   bool
+	entry     []Fact
+	entryDone bool
 }
 
 // phiInv: at every entry of the loop header, len(slice phi) - int phi == c.
@@ -562,6 +564,8 @@ func (g *GuardCtx) AllFacts(goal Poly, at ssa.Instruction) []Fact {
 			facts = append(facts, u.F)
 		}
 	}
+	// guards every caller of an unexported helper makes before the call
+	facts = append(facts, g.entryFacts()...)
 	// universal facts established by validation helpers that returned no error
 	for _, iu := range g.importedUnivs() {
 		if g.importedValid(iu, b) {
